@@ -1182,6 +1182,10 @@ func runRequests(c RCase) (map[string]int, error) {
 					// reply at once; the requester collects it only after more than the timeout
 					ctx.Respond(repMsg{Token: m.Token})
 					close(m.replied)
+				case "heldnil":
+					// the same with nil as the reply: a reply is a reply, whatever its value
+					ctx.Respond(nil)
+					close(m.replied)
 				}
 			case poke:
 				// a message that came without a sender: there is nobody to respond to, whoever was answered
@@ -1216,7 +1220,7 @@ func runRequests(c RCase) (map[string]int, error) {
 			if r.B == "none" || r.B == "late" {
 				timeout = time.Duration(r.T) * time.Millisecond
 			}
-			if r.B == "held" {
+			if r.B == "held" || r.B == "heldnil" {
 				// the reply is there before Result() is called, so it has "arrived within the timeout" however
 				// short that is - also when the deadline has passed by the time Result() looks (T = 0, or a
 				// goroutine that is not scheduled for a while: finding F22)
@@ -1268,7 +1272,7 @@ func runRequests(c RCase) (map[string]int, error) {
 				// calls Respond: that must go nowhere - not to this request, which is still waiting
 				e.Send(resp[r.R], poke{})
 			}
-			if r.B == "held" {
+			if r.B == "held" || r.B == "heldnil" {
 				// the reply is in the response's mailbox, well inside the timeout; Result() is called late
 				if err := waitCh(rq.replied, "responder did not reply"); err != nil {
 					out[i].err = err
@@ -1308,7 +1312,12 @@ func runRequests(c RCase) (map[string]int, error) {
 				close(rq.again) // Result() has returned: the responder may send its second reply now
 			}
 			switch {
-			case err != nil && r.B == "held":
+			case err == nil && r.B == "heldnil":
+				if v != nil {
+					out[i].err = fmt.Errorf("request %d: the responder replied nil, Result() returned %#v", i, v)
+					return
+				}
+			case err != nil && (r.B == "held" || r.B == "heldnil"):
 				out[i].err = fmt.Errorf("request %d: the reply arrived before Result() was called (well within the timeout of %v), yet Result() returned the error %v", i, timeout, err)
 				return
 			case err == nil:
@@ -1420,7 +1429,7 @@ func genRequests(t *rapid.T) RCase {
 	for i := 0; i < n; i++ {
 		c.Reqs = append(c.Reqs, Req{
 			R:   rapid.IntRange(0, c.Responders-1).Draw(t, "r"),
-			B:   rapid.SampledFrom([]string{"reply", "reply", "reply", "twice", "none", "late", "held", "twicelate"}).Draw(t, "b"),
+			B:   rapid.SampledFrom([]string{"reply", "reply", "reply", "twice", "none", "late", "held", "heldnil", "twicelate"}).Draw(t, "b"),
 			Via: rapid.SampledFrom([]int{0, 0, 0, 1, 2}).Draw(t, "via"),
 			// 0 = a request whose timeout has passed as soon as it is made (Result() must still clean up)
 			T:    rapid.SampledFrom([]int{0, 0, 5, 8, 13, 21, 30, 40}).Draw(t, "t"),
